@@ -7,6 +7,7 @@ package harness
 // lock-request hooks are the gates.
 
 import (
+	crand "crypto/rand"
 	"encoding/json"
 	"fmt"
 	"os"
@@ -21,6 +22,7 @@ import (
 	"time"
 	"unsafe"
 
+	"github.com/crewjam/saml"
 	"github.com/crewjam/saml/samlidp"
 )
 
@@ -550,6 +552,11 @@ func TestC20RacePairs(t *testing.T) {
 	// synchronisation event for the race detector and order the very accesses it is looking at)
 	samlidp.VerifHook = func(ev, res string, mu *sync.RWMutex) { runtime.Gosched() }
 	defer func() { samlidp.VerifHook = nil }()
+	// the operating system fills a buffer behind the race detector's back: random bytes are copied into the
+	// caller's buffer by instrumented code here, so that a buffer shared between requests is seen
+	oldRand := saml.RandReader
+	saml.RandReader = c20VisibleRand{}
+	defer func() { saml.RandReader = oldRand }()
 	type round struct{ idx []int }
 	var rounds []round
 	reps := 2
@@ -596,6 +603,17 @@ func TestC20RacePairs(t *testing.T) {
 		rep.Eval("FreeRun", strings.Join(names, "+"))
 	}
 	rep.Extra["free_running_rounds"] = len(rounds)
+}
+
+// c20VisibleRand has no state of its own (nothing that would order two readers).
+type c20VisibleRand struct{}
+
+func (c20VisibleRand) Read(p []byte) (int, error) {
+	tmp := make([]byte, len(p))
+	if _, err := crand.Read(tmp); err != nil {
+		return 0, err
+	}
+	return copy(p, tmp), nil
 }
 
 func init() {
